@@ -61,7 +61,7 @@ def check_mi(ctx, case):
     cuts = [0] + list(case['cuts']) + [n]
     for a, b in zip(cuts, cuts[1:]):
         if b > a:
-            must(case, 'MIA.update', obj.update, traces[a:b], data[a:b])
+            must(case, 'MIA.update', obj.update, gen.L(case, traces[a:b]), gen.L(case, data[a:b], 2))
     with warnings.catch_warnings():
         warnings.simplefilter('ignore')
         res = must(case, 'MIA.compute', obj.compute)
